@@ -36,7 +36,8 @@ def run(ctx):
     ctx.rule("A3", "Cache: FSM graph without trap; master write enable needs cyc & stb & we & ack; dirty only on writes; "
                    "refill write only in REFILL under slave.ack; tag written on both miss paths; word steps via inc/clr",
              min_sites=17)
-    ctx.rule("A4", "Remapper: origin and log2_size converted bytes->words by the same shift under the same condition", min_sites=3)
+    ctx.rule("A4", "Remapper: origin and log2_size converted bytes->words by the same shift under the same condition; region window half-open "
+                   "[origin, origin+size), dst = dst.origin + src - src.origin, redirect iff active", min_sites=6)
     ctx.rule("A5", "Wishbone2CSR (registered and combinational): we/re polarity, both need sel != 0 and cyc & stb, ack only in "
                    "ACK, no trap", min_sites=16)
     ctx.rule("PRIO", "no dead driver", min_sites=10)
@@ -269,6 +270,53 @@ def run(ctx):
     r = [a.v for a in sh if a.t == "slave.adr"]
     ok = len(l) == 1 and len(r) == 1 and " << " in l[0] and " >> " in r[0] and l[0].split(" << ")[1] == r[0].split(" >> ")[1]
     ctx.ob("A4", WB, "Remapper", "region remap shifts up and down by the same amount", ok, "" if ok else f"{l} / {r}")
+    # window membership is the half-open interval [origin, origin + size): conjunction of  src >= origin  and  src < origin + size
+    from .. import lin
+    ac = fx.find(domain="comb", target="active")
+    ok = len(ac) == 1 and not ac[0].guards
+    lo = hi = None
+    if ok:
+        def conj(e):
+            if isinstance(e, ast.BinOp) and isinstance(e.op, ast.BitAnd):
+                return conj(e.left) + conj(e.right)
+            return [e]
+        for c in conj(ac[0].value):
+            if not (isinstance(c, ast.Compare) and len(c.ops) == 1):
+                continue
+            op, lft, rgt = type(c.ops[0]), c.left, c.comparators[0]
+            if norm(rgt) == "src_adr":
+                lft, rgt = rgt, lft
+                op = {ast.Lt: ast.Gt, ast.LtE: ast.GtE, ast.Gt: ast.Lt, ast.GtE: ast.LtE}.get(op)
+            if norm(lft) != "src_adr":
+                continue
+            T = lin.linform(rgt)
+            if op is ast.GtE:
+                lo = T
+            elif op is ast.Gt:
+                lo = lin.add(T, lin.const(1))
+            elif op is ast.Lt:
+                hi = T
+            elif op is ast.LtE:
+                hi = lin.add(T, lin.const(1))
+        src = None
+        if lo is not None and len(lo) == 1:
+            (k, c), = lo.items()
+            if c == 1 and isinstance(k, str) and k.endswith(".origin"):
+                src = k[:-len(".origin")]
+        ok = src is not None and hi == {src + ".origin": 1, src + ".size": 1} and len(conj(ac[0].value)) == 2
+    ctx.ob("A4", WB, "Remapper", "region window = [origin, origin + size) (first address past the window passes through)", ok,
+           "" if ok else f"active = {ac[0].v if ac else '?'}: lower bound {lin.show(lo) if lo is not None else '?'}, exclusive upper bound "
+                         f"{lin.show(hi) if hi is not None else '?'}: an address outside the source region is redirected (or one inside is not)",
+           ac[0].line if ac else 0)
+    da = fx.find(domain="comb", target="dst_adr")
+    df = lin.linform(da[0].value) if len(da) == 1 else {}
+    pos = [k for k, c in df.items() if c == 1 and isinstance(k, str) and k.endswith(".origin")]
+    neg = [k for k, c in df.items() if c == -1 and isinstance(k, str) and k.endswith(".origin")]
+    ok = len(da) == 1 and len(df) == 3 and df.get("src_adr") == 1 and len(pos) == 1 and len(neg) == 1 and "dst" in pos[0] and "src" in neg[0]
+    ctx.ob("A4", WB, "Remapper", "dst = dst.origin + (src - src.origin)", ok, "" if ok else f"{[a.v for a in da]}")
+    ra = [a for a in fx.find(domain="comb", target="slave.adr") if a.guards]
+    ok = len(ra) == 1 and B.equivalent(ra[0].eff(), B.A("active")) and ra[0].v.startswith("dst_adr >>")
+    ctx.ob("A4", WB, "Remapper", "redirected exactly when active", ok, "" if ok else f"{[(a.v, a.gtext()) for a in ra]}")
 
     # ================================================================ A5 Wishbone2CSR
     fx = fx_of(ctx, WB, "Wishbone2CSR")
